@@ -75,6 +75,8 @@ def createFvElems (base abs size : Nat) (mk : Except Err Fv) : List BiosElem →
     | .ok es' => .ok (.fv v :: es')
   | .pad p o :: es =>
     if abs ≥ base + o ∧ abs + size ≤ base + o + p.length then
+      -- repaired (fixes/C02-createfv-align): the volume scan probes every 8 bytes from the start of the padding
+      if (abs - (base + o)) % 8 ≠ 0 then .error .err else
       match mk with
       | .error e => .error e
       | .ok fv =>
